@@ -440,6 +440,12 @@ open_("F-C18-scientific-content-sets-format", "C18",
       {"language": "en", "locale": "en", "input": "0.000001234", "format": None},
       patterns=[{"check": "re-entry", "keys": ["number-like:other-format"], "cats": ["style"]}])
 
+# ---------------------------------------------------------------- C32
+open_("F-C32-rename-lambda-name", "C32",
+      "renaming a defined name whose formula is a LAMBDA does not update the formulas that call it: =dbl(A1) shows #NAME? after dbl is renamed",
+      {"names": [["dbl", None, "=LAMBDA(x,x*2.5)"]], "cells": [[0, 1, 1, "111"], [0, 5, 4, "=dbl(A1)+dbl(4)"]], "edit": {"RenameName": ["dbl", "renamed_name"]}},
+      sigs=["value|RenameName:lambda|"])
+
 def main():
     os.makedirs(os.path.join(HERE, "findings"), exist_ok=True)
     out = []
